@@ -386,6 +386,36 @@ func TestC20Shapes(t *testing.T) {
 
 		labels, unusual, tagged, hasID := shapeLabels(s)
 
+		// Acceptance is a matter of the struct type: a value whose
+		// interface-typed fields hold something gets the same answer as the
+		// zero value.
+		filled := reflect.New(st).Elem()
+		holds := false
+
+		for i := 0; i < filled.NumField(); i++ {
+			if f := filled.Field(i); f.Kind() == reflect.Interface && f.CanSet() {
+				for _, v := range []any{"x", fmt.Errorf("e"), time.Second} {
+					if reflect.TypeOf(v).AssignableTo(f.Type()) {
+						f.Set(reflect.ValueOf(v))
+						holds = true
+
+						break
+					}
+				}
+			}
+		}
+
+		if holds {
+			var ferr error
+			if p := oracle.Try(func() { ferr = jsonapi.Check(filled.Interface()) }); p != nil {
+				t.Fatalf("C20 violated: Check (interface fields filled) %s\nshape: %s", p, s)
+			}
+
+			if (ferr == nil) != (cerr == nil) {
+				t.Fatalf("C20 violated: Check says %v for the zero value and %v for a value whose interface-typed fields hold something\nshape: %s", cerr, ferr, s)
+			}
+		}
+
 		if cerr != nil {
 			for _, c := range []struct {
 				arg any
